@@ -387,6 +387,17 @@ Proof.
   apply memz_In in E. rewrite forallb_forall in C. specialize (C c E). rewrite Hc in C. discriminate.
 Qed.
 
+(* "." continues no operator of the table (only "?", which is not one of them, and "." itself) *)
+Lemma chk_dot_all : forall_ops (fun o => negb (memz 46 (hazard_chars true (op_text o))) && negb (memz 46 (hazard_chars false (op_text o)))) = true.
+Proof. vm_compute. reflexivity. Qed.
+Lemma hazard_not_dot ls o : memz 46 (hazard_chars ls (op_text o)) = false.
+Proof.
+  pose proof (forall_ops_sound _ chk_dot_all o) as C. simpl in C. apply andb_true_iff in C as [C1 C2].
+  destruct ls; apply negb_true_iff; assumption.
+Qed.
+Lemma hazard_not_numhead ls o c : id_part c = true \/ c = 46 -> memz c (hazard_chars ls (op_text o)) = false.
+Proof. intros [H|H]; [apply hazard_not_id; exact H | subst c; apply hazard_not_dot]. Qed.
+
 Lemma ends_esc_seq pre hex : hex <> [] -> forallb hexd hex = true -> ends_esc (pre ++ esc_seq hex) = true.
 Proof.
   intros Hne Hh. unfold ends_esc, esc_seq.
@@ -423,10 +434,10 @@ Proof.
     rewrite E. rewrite last_last. apply in_or_app. right. left. reflexivity.
   - unfold id_part. rewrite Hs. reflexivity.
 Qed.
-Lemma num_last s : num_shape s -> is_id_part (last s 0) = true /\ id_part (hdz s) = true.
+Lemma num_last s : num_shape s -> is_id_part (last s 0) = true /\ (id_part (hdz s) = true \/ hdz s = 46).
 Proof.
   intro H. split; [rewrite id_part_same; apply num_last_idpart; exact H|].
-  destruct (num_hd s H) as (c & s' & E & Hc). subst s. simpl. apply digit_id_part. exact Hc.
+  destruct (num_hd s H) as (c & s' & E & [Hc|Hc]); subst s; simpl; [left; apply digit_id_part; exact Hc | right; exact Hc].
 Qed.
 
 (* ---- the follower of every item is harmless (pair level) ---- *)
@@ -457,8 +468,11 @@ Proof. destruct o; simpl; intro H; try discriminate; split; reflexivity. Qed.
 Lemma ctx_after_ls t : line_start (ctx_after t) = false.
 Proof. destruct t; reflexivity. Qed.
 
+(* the two places where one character of look-ahead is not enough: "<" "!" (the comment opener "<!--" needs two
+   more characters) and "?" followed by a number that starts with "." ("?." followed by a digit is "?") *)
 Definition special (mw : bool) (st : pst) (i : item) (r : list item) : Prop :=
-  i = IOp BLt /\ post_sp mw i = false /\ exists r', r = IOp UNot :: r' /\ pre_sp mw (after mw st i) (IOp UNot) = false.
+  (i = IOp BLt /\ post_sp mw i = false /\ exists r', r = IOp UNot :: r' /\ pre_sp mw (after mw st i) (IOp UNot) = false)
+  \/ (i = IQuest /\ post_sp mw i = false /\ exists s' r', r = INum (46 :: s') :: r' /\ pre_sp mw (after mw st i) (INum (46 :: s')) = false).
 
 Lemma need_holds mw prev st i r :
   item_ok i -> Forall item_ok r -> chain prev (i :: r) = true ->
@@ -543,7 +557,7 @@ Proof.
       * unfold adj in Hadj. change (ends_operand (IOp o)) with (is_post (IOp o)) in Hadj. rewrite Epost in Hadj. apply andb_true_iff in Hadj as [Hso Hupd].
         destruct j as [s'|s'|b' f'|o'|s'| | | | | | | |]; try discriminate.
         -- left. destruct Hj as [Hs' _]. destruct (word_last_gen s' Hs') as [_ Hh]. simpl text. rewrite (hazard_not_id ls o _ Hh). reflexivity.
-        -- left. destruct (num_last s' Hj) as [_ Hh]. simpl text. rewrite (hazard_not_id ls o _ Hh). reflexivity.
+        -- left. destruct (num_last s' Hj) as [_ Hh]. simpl text. rewrite (hazard_not_numhead ls o _ Hh). reflexivity.
         -- left. simpl text. simpl hdz.
            pose proof (forall_ops_sound _ chk_re_all o) as C. unfold chk_re in C. simpl forallb in C. split_andb.
            unfold pre_sp, st_abs in Epre. simpl lastc in Epre. apply orb_false_iff in Epre as [E47 _].
@@ -558,7 +572,7 @@ Proof.
               { unfold nonkw. rewrite Ew, Ew', Epost, Ep, Epre. simpl.
                 unfold adj. change (ends_operand (IOp o)) with (is_post (IOp o)). rewrite Epost. simpl starts_operand. rewrite Ek'. change (is_update_pre (IOp o)) with (match o with UPreDec | UPreInc => true | _ => false end) in Hupd. simpl. rewrite Hupd. reflexivity. }
               destruct (opop_use mw ls b60 e o o' Hp) as [[E1 E2]|E].
-              ** right. subst o o'. unfold special. split; [reflexivity|]. split; [exact Ep|].
+              ** right. left. subst o o'. split; [reflexivity|]. split; [exact Ep|].
                  exists r'. split; [reflexivity | exact Epre0].
               ** left. simpl text. rewrite E. reflexivity.
         -- left. simpl text. simpl hdz. destruct (Fh ls) as (_ & _ & A & _). rewrite A. reflexivity.
@@ -570,12 +584,19 @@ Proof.
   - left. simpl need. destruct (paren_hazards ls) as [E _]. rewrite E. reflexivity.
   - left. simpl need. destruct (paren_hazards ls) as [_ E]. rewrite E. reflexivity.
   - (* "?" : its hazards are "?" and "." , no operand starts with those *)
+    assert (Hdotnum : (exists s', j = INum (46 :: s')) \/ (forall s', j <> INum (46 :: s'))).
+    { destruct j as [s0|s0|b0 f0|o0|s0| | | | | | | |]; try (right; intros s' X; discriminate).
+      destruct s0 as [|c0 s1]; [right; intros s' X; discriminate|].
+      destruct (Z.eq_dec c0 46) as [E46|N46]; [left; subst c0; exists s1; reflexivity | right; intros s' X; inversion X; congruence]. }
+    destruct Hdotnum as [(s' & Ej)|Hnd].
+    { right. right. subst j. split; [reflexivity|]. split; [exact Ep|]. exists s', r'. split; [reflexivity | exact Epre0]. }
     left. unfold need. destruct (simple_hazards ls) as (E & _). rewrite E.
     unfold adj in Hadj. simpl ends_operand in Hadj. apply andb_true_iff in Hadj as [Hso _].
     assert (Hc : hdz (text j) <> 63 /\ hdz (text j) <> 46).
     { destruct j as [s'|s'|b' f'|o'|s'| | | | | | | |]; try discriminate; simpl text; simpl hdz; try (split; discriminate).
       - destruct Hj as [Hs' _]. destruct (word_last_gen s' Hs') as [_ Hh]. unfold id_part, id_start, digit in Hh. lia.
-      - destruct (num_last s' Hj) as [_ Hh]. unfold id_part, id_start, digit in Hh. lia.
+      - destruct (num_last s' Hj) as [_ [Hh|Hh]]; [unfold id_part, id_start, digit in Hh; lia|].
+        exfalso. destruct s' as [|c0 s1]; [simpl in Hh; discriminate|]. simpl in Hh. subst c0. apply (Hnd s1). reflexivity.
       - simpl in Hso. destruct o'; try discriminate; split; discriminate. }
     destruct Hc as [H63 H46]. simpl. apply Z.eqb_neq in H63. apply Z.eqb_neq in H46. rewrite H63, H46. reflexivity.
   - left. unfold need. destruct (simple_hazards ls) as (_ & E & _). rewrite E. reflexivity.
